@@ -1,4 +1,5 @@
 import LitexModel.Event.Core
+import LitexModel.Event.Gpio
 import LitexModel.DriverLib
 /-
   Numeric port encoding of the event-manager models for the line protocol.
@@ -9,6 +10,9 @@ import LitexModel.DriverLib
   open shared <bw> <little> <kind…> | <bw> <little> <kind…> | …
     inputs : the four inputs of every manager, concatenated
     outputs: [shared irq, then (irq, dat_r, clear, pending, status) of every manager]
+  open gpio <bw> <little> <npads>          `_GPIOIRQ.add_irq` (LitexModel/Event/Gpio.lean)
+    inputs : [in (synchronised pads), mode, edge, adr, we, dat_w]
+    outputs: [irq, dat_r, clear, pending, status, trigger]
 -/
 namespace Litex.Event
 open Litex Litex.Driver
@@ -61,6 +65,18 @@ def numShared (cs : List Cfg) : NumMachine (List St) where
     ((shared cs).next ss is, b2n o.1 :: (o.2.map outNums).flatten)
   key s := toString (repr s)
 
+def numGpio (n bw : Nat) (little : Bool) : NumMachine GpioSt where
+  init := (gpioIrq n bw little).init
+  step s ins :=
+    match ins with
+    | [p, m, e, a, w, d] =>
+      let i : GpioIn := { pads := unpackBits n p, mode := unpackBits n m, edge := unpackBits n e, adr := a,
+                          we := n2b w, datW := d }
+      let o := (gpioIrq n bw little).out s i
+      some ((gpioIrq n bw little).next s i, outNums o.1 ++ [packBits o.2])
+    | _ => none
+  key s := toString (repr s)
+
 /-- Split a word list on "|". -/
 def splitBar (ws : List String) : List (List String) :=
   let rec go (acc : List String) (out : List (List String)) : List String → List (List String)
@@ -71,6 +87,11 @@ def splitBar (ws : List String) : List (List String) :=
 def openMachine (args : List String) (hin hout : IO.FS.Stream) : Option (IO Bool) :=
   match args with
   | "ev" :: rest => (parseCfg rest).map fun c => serve (numEv c) hin hout
+  | ["gpio", bw, little, n] => do
+    let bw ← bw.toNat?
+    let little ← little.toNat?
+    let n ← n.toNat?
+    if bw = 0 then none else some (serve (numGpio n bw (n2b little)) hin hout)
   | "shared" :: rest => ((splitBar rest).mapM parseCfg).map fun cs => serve (numShared cs) hin hout
   | _ => none
 
